@@ -226,6 +226,10 @@ func propC07(t *rapid.T) {
 		ctr++
 		nLogs++
 		site := &Spec{Kind: "int", Key: fmt.Sprintf("site%d", ctr), V: ctr}
+		if rapid.IntRange(0, 3).Draw(t, "noCallSiteFields") == 0 {
+			site = &Spec{Kind: "skip"} // a log call without any call-site field
+		}
+		noSite := site.Kind == "skip"
 		msg := fmt.Sprintf("msg%d", ctr)
 		j0, c0 := len(env.jsink.writes), len(env.csink.writes)
 		if env.logs != nil {
@@ -237,13 +241,16 @@ func propC07(t *rapid.T) {
 			siblingUse = true
 		}
 		n.used = true
-		if n.sg != nil {
-			if rapid.Bool().Draw(t, "sugarPair") {
-				n.sg.Infow(msg, site.Key, site.V)
-			} else {
-				n.sg.Infow(msg, site.Field())
-			}
-		} else {
+		switch {
+		case n.sg != nil && noSite:
+			n.sg.Infow(msg)
+		case n.sg != nil && rapid.Bool().Draw(t, "sugarPair"):
+			n.sg.Infow(msg, site.Key, site.V)
+		case n.sg != nil:
+			n.sg.Infow(msg, site.Field())
+		case noSite:
+			n.lg.Info(msg)
+		default:
 			n.lg.Info(msg, site.Field())
 		}
 		history = append(history, fmt.Sprintf("log(#%d)", n.id))
@@ -275,22 +282,29 @@ func propC07(t *rapid.T) {
 				fail("console sink received %d lines for one entry", len(env.csink.writes)-c0)
 			}
 			line := strings.TrimSuffix(string(env.csink.writes[c0]), "\n")
-			prefix := msg + "\t"
-			if n.name != "" {
-				prefix = n.name + "\t" + prefix
-			}
-			if !strings.HasPrefix(line, prefix) {
-				fail("console line %q lacks prefix %q", line, prefix)
-			}
-			why, got := checkJSONLine([]byte(line[len(prefix):]), "")
-			if why != "" {
-				fail("console context malformed: %s: %q", why, line)
-			}
 			cw := newObjX()
 			n.expectInto(cw)
 			site.ExpectField(cw)
-			if e := cmpTree("$ctx", cw.root, got, c07CfgSpec); e != "" {
-				fail("console context is not exactly the logger's own context: %s\n line: %s", e, line)
+			prefix := msg
+			if n.name != "" {
+				prefix = n.name + "\t" + prefix
+			}
+			if len(cw.root.kids) == 0 {
+				if line != prefix {
+					fail("console line %q, want %q (no fields at all)", line, prefix)
+				}
+			} else {
+				prefix += "\t"
+				if !strings.HasPrefix(line, prefix) {
+					fail("console line %q lacks prefix %q", line, prefix)
+				}
+				why, got := checkJSONLine([]byte(line[len(prefix):]), "")
+				if why != "" {
+					fail("console context malformed: %s: %q", why, line)
+				}
+				if e := cmpTree("$ctx", cw.root, got, c07CfgSpec); e != "" {
+					fail("console context is not exactly the logger's own context: %s\n line: %s", e, line)
+				}
 			}
 		}
 		if env.logs != nil {
@@ -301,7 +315,10 @@ func propC07(t *rapid.T) {
 			if es[0].LoggerName != n.name || es[0].Message != msg {
 				fail("observer entry name/message %q/%q, want %q/%q", es[0].LoggerName, es[0].Message, n.name, msg)
 			}
-			wantF := append(toFields(n.pathFields()), site.Field())
+			wantF := toFields(n.pathFields())
+			if !noSite {
+				wantF = append(wantF, site.Field())
+			}
 			// sugared pairs become zap.Any(key, int) = Int64-typed field: compare by key+type family
 			if len(es[0].Context) != len(wantF) {
 				fail("observer context has %d fields, want %d: %v", len(es[0].Context), len(wantF), es[0].Context)
